@@ -3,7 +3,7 @@ from .common import unhx
 
 
 class Res:
-    __slots__ = ("cls", "perr", "tree", "ctext", "cerr", "s2t", "t2s", "gtext", "gerr", "raw", "adds")
+    __slots__ = ("cls", "perr", "tree", "ctext", "cerr", "s2t", "t2s", "gtext", "gerr", "raw", "adds", "unique")
 
 
 def _table(s):
@@ -44,6 +44,7 @@ def parse_model(line):
         r.t2s[(tl, tc)] = (sl, sc)
     r.gtext, r.gerr = f[6], f[7]
     r.adds = []
+    r.unique = f[9] if len(f) > 9 else None
     if len(f) > 8 and f[8]:
         for a in f[8].split(";"):
             p = a.split(",")
